@@ -6,7 +6,13 @@ from flow import flow_of
 
 MRL = 'multi_record_log::MultiRecordLog'
 MPR = 'record::MultiPlexedRecord'
-KINDS = ['AppendRecords', 'Truncate', 'RecordPosition', 'DeleteQueue']
+KINDS = ['AppendRecords', 'Truncate', 'RecordPosition', 'DeleteQueue']   # today's kinds (documentation); rules use kinds(ctx)
+
+
+def kinds(ctx):
+    """Entry kinds = variants of MultiPlexedRecord, read from the ADT on every run."""
+    a = ctx.f.adts.get(MPR)
+    return [v['name'] for v in a['variants']] if a else list(KINDS)
 
 
 def root_bodies(ctx):
